@@ -137,6 +137,8 @@ def decide(out, obs, props, ncases, nprogs, st, rule):
             nt.add(o["src"])
         if len(samples) < 5 and o.get("case", 0) % 1777 == 0 and "runs" in o:
             samples.append({"src": o["src"], "input": o.get("input"), "values": [r.get("value", r.get("status")) for r in o["runs"]]})
+        if o.get("outcome") == "notrun":
+            continue
         if o.get("outcome") in ("hang", "abort", "harness_panic"):
             out.fail("NEW", "worker %s while running a program" % o.get("outcome"), o, family="worker " + str(o.get("outcome")))
     out.cov["distinct_nontrivial"] = len(nt)
